@@ -368,6 +368,9 @@ impl C12 {
                 }
             }
         }
+        // the verdict (and its flags) must describe the minimised case
+        let out = run_case(&best);
+        let verdict = self.judge(&best, &out).or(verdict);
         (best, verdict)
     }
 }
